@@ -36,13 +36,18 @@ def quiet(f, *a, **k):
         return f(*a, **k)
 
 
+def index_meta(idx):
+    """what a caller can observe about an index object besides its values"""
+    return (str(getattr(idx, "freq", None)), str(getattr(idx, "tz", None)), str(idx.dtype), idx.name)
+
+
 def snap_frame(df):
-    return (df.copy(deep=True), list(df.columns), df.index.copy())
+    return (df.copy(deep=True), list(df.columns), df.index.copy(), index_meta(df.index))
 
 
 def frame_unchanged(snap, df):
-    old, cols, idx = snap
-    if list(df.columns) != cols or not df.index.equals(idx):
+    old, cols, idx, meta = snap
+    if list(df.columns) != cols or not df.index.equals(idx) or index_meta(df.index) != meta:
         return False
     return frames_equal(old, df)[0]
 
@@ -75,7 +80,7 @@ def run(ctx):
 
     # ------------------------------------------------------------------ data classes do not touch the caller's frames
     def check_data_class(name, ctor, frames):
-        snaps = [snap_frame(f) if isinstance(f, pd.DataFrame) else (f.copy(deep=True),) for f in frames]
+        snaps = [snap_frame(f) if isinstance(f, pd.DataFrame) else (f.copy(deep=True), None, None, (index_meta(f.index), f.name)) for f in frames]
         try:
             obj = quiet(ctor, *frames)
         except Exception as e:  # noqa
@@ -83,10 +88,13 @@ def run(ctx):
             return None
         res["evaluations"] += 1
         for f, s in zip(frames, snaps):
-            same = frame_unchanged(s, f) if isinstance(f, pd.DataFrame) else (f.equals(s[0]) and f.index.equals(s[0].index))
+            same = frame_unchanged(s, f) if isinstance(f, pd.DataFrame) else \
+                (f is not None and f.equals(s[0]) and f.index.equals(s[0].index) and (index_meta(f.index), f.name) == s[3])
             if not same:
-                fail("data_class_modified_callers_frame", data_class=name, columns_before=s[1] if len(s) > 1 else None,
-                     columns_after=list(f.columns) if isinstance(f, pd.DataFrame) else None)
+                fail("data_class_modified_callers_frame", data_class=name, columns_before=s[1],
+                     columns_after=list(f.columns) if isinstance(f, pd.DataFrame) else None,
+                     index_before=list(s[3]) if isinstance(f, pd.DataFrame) else list(s[3][0]),
+                     index_after=list(index_meta(f.index)))
         # frames handed out are independent copies
         a = obj.df
         if a is not None and len(a):
@@ -105,6 +113,22 @@ def run(ctx):
     daily_b = check_data_class("DailyBaselineData(frame)", lambda f: DailyBaselineData(f, is_electricity_data=True), [dd.copy()])
     check_data_class("DailyBaselineData.from_series", lambda a, b: DailyBaselineData.from_series(a, b, is_electricity_data=True),
                      [dd["observed"].copy(), hd_year["temperature"].copy()])
+    # inputs as a caller may hold them: an index built from a list of stamps (no frequency attached), the weather as a Series, as a
+    # one-column frame called 'temperature' or something else, in the meter's zone or in UTC
+    def stamps(idx):
+        return pd.DatetimeIndex(list(idx))
+    m_nf = pd.Series(dd["observed"].to_numpy(), index=stamps(dd.index), name="observed")
+    t_loc = pd.Series(hd_year["temperature"].to_numpy(), index=stamps(hd_year.index), name="temperature")
+    t_utc = pd.Series(hd_year["temperature"].to_numpy(), index=stamps(hd_year.index.tz_convert("UTC")), name="temperature")
+    for wname, w in [("series_local", t_loc), ("series_utc", t_utc), ("frame_temperature_utc", t_utc.to_frame("temperature")),
+                     ("frame_other_name_utc", t_utc.to_frame("tempF")), ("frame_temperature_local", t_loc.to_frame("temperature"))]:
+        for cname, cls_ in [("DailyBaselineData", DailyBaselineData), ("DailyReportingData", DailyReportingData)]:
+            check_data_class(f"{cname}.from_series[no-freq meter, {wname}]",
+                             lambda a, b, cls_=cls_: cls_.from_series(a, b, is_electricity_data=True), [m_nf.copy(), w.copy()])
+    check_data_class("DailyBaselineData(frame)[no-freq index]", lambda f: DailyBaselineData(f, is_electricity_data=True),
+                     [pd.DataFrame({"observed": dd["observed"].to_numpy(), "temperature": dd["temperature"].to_numpy()}, index=stamps(dd.index))])
+    check_data_class("HourlyBaselineData(frame)[no-freq index]", lambda f: HourlyBaselineData(f, is_electricity_data=True),
+                     [pd.DataFrame({c: hd_year[c].to_numpy() for c in hd_year.columns}, index=stamps(hd_year.index))])
     hour_b = check_data_class("HourlyBaselineData(frame)", lambda f: HourlyBaselineData(f, is_electricity_data=True), [hd_year.copy()])
     reads = pd.date_range("2021-01-01", periods=13, freq="30D", tz=TZ)
     meter = pd.Series(np.linspace(500, 900, 13), index=reads, name="observed")
